@@ -22,7 +22,7 @@ RULE = (
     "carries at least one non-dimension coordinate"
 )
 SPACE = {
-    "quick": "all subsets of <= 3 of 9 pool coordinates x {all, none, only centre, all but centre} dimension coordinates x 10 (op, shift) paths x carry/none/relabelled x keep_coords T/F; each path also as the first valid call of a Grid after two calls with misfitting inputs; subsets of <= 2 on a single-cell axis (length-0 inner position) and with an empty untouched dimension",
+    "quick": "all subsets of <= 3 of 9 pool coordinates x {all, none, only centre, all but centre} dimension coordinates x 10 (op, shift) paths x carry all/none/only dimension coordinates/relabelled x keep_coords T/F; Grids with and without metrics held as data variables; each path also as the first valid call of a Grid after two calls with misfitting inputs; subsets of <= 2 on a single-cell axis (length-0 inner position) and with an empty untouched dimension",
     "thorough": "subsets of <= 4",
 }
 BOUNDS = {"quick": {"k": 3}, "thorough": {"k": 4}}
@@ -71,6 +71,19 @@ def build(pool, dimcoords, sizes="std"):
     return ds
 
 
+def make_grid(ds, dimcoords):
+    """for two of the four dimension-coordinate modes the Grid also has metrics: data variables of the dataset, which are
+    not coordinates and are never attached to a result"""
+    from xgcm import Grid
+
+    kw = {}
+    if dimcoords in (True, "faces"):
+        kw["metrics"] = {("X",): ["v_xc", "v_xg"]}
+    with warnings.catch_warnings():
+        warnings.simplefilter("ignore")
+        return Grid(ds, coords={"X": POSDIM}, periodic=False, autoparse_metadata=False, **kw)
+
+
 def run_case(rec, pool, dimcoords, ci, carry, kc, seed, g=None, ds=None, sizes="std", after_refused=False):
     from xgcm import Grid
 
@@ -79,9 +92,7 @@ def run_case(rec, pool, dimcoords, ci, carry, kc, seed, g=None, ds=None, sizes="
     LEN = lens(sizes)
     if ds is None or after_refused:
         ds = build(pool, dimcoords, sizes)
-        with warnings.catch_warnings():
-            warnings.simplefilter("ignore")
-            g = Grid(ds, coords={"X": POSDIM}, periodic=False, autoparse_metadata=False)
+        g = make_grid(ds, dimcoords)
     din, dout = POSDIM[fr], POSDIM[to]
     if LEN[din] == 0:
         return  # nothing to extend: an empty shifted dimension is legitimately refused under 'extend'
@@ -103,6 +114,9 @@ def run_case(rec, pool, dimcoords, ci, carry, kc, seed, g=None, ds=None, sizes="
     da = xr.DataArray(vals, dims=["t", din], name="foo")
     if carry == "own":
         da = da.assign_coords({c: ds.coords[c] for c in ds.coords if set(ds.coords[c].dims) <= set(da.dims)})
+    elif carry == "dims-only":
+        # only the dataset's dimension coordinates (what a result of an earlier operation with keep_coords=False carries)
+        da = da.assign_coords({c: ds.coords[c].variable for c in ds.coords if c in da.dims})
     elif carry == "other":
         # different labels on the input's own dimensions (only to check label independence)
         da = da.assign_coords({din: (din, np.arange(LEN[din])[::-1] * 10.0 - 3), "t": ("t", [5.0, -5.0][: LEN["t"]])})
@@ -229,12 +243,12 @@ def run_shard(shard, tier, seed, rec):
     for pool in ps[shard[0]: shard[1]]:
         for dimcoords in (True, False, "center", "faces"):
             ds = build(pool, dimcoords)
-            with warnings.catch_warnings():
-                warnings.simplefilter("ignore")
-                g = Grid(ds, coords={"X": POSDIM}, periodic=False, autoparse_metadata=False)
+            g = make_grid(ds, dimcoords)
             for ci in range(len(CASES)):
-                for carry in ("own", "none", "other"):
+                for carry in ("own", "none", "other", "dims-only"):
                     if carry == "other" and dimcoords is not True:
+                        continue
+                    if carry == "dims-only" and dimcoords is False:
                         continue
                     for kc in (True, False):
                         run_case(rec, pool, dimcoords, ci, carry, kc, seed, g, ds)
@@ -246,9 +260,7 @@ def run_shard(shard, tier, seed, rec):
             for sizes in ("one-cell", "empty-t"):
                 for dimcoords in (True, False):
                     ds = build(pool, dimcoords, sizes)
-                    with warnings.catch_warnings():
-                        warnings.simplefilter("ignore")
-                        g = Grid(ds, coords={"X": POSDIM}, periodic=False, autoparse_metadata=False)
+                    g = make_grid(ds, dimcoords)
                     for ci in range(len(CASES)):
                         for carry in ("own", "none"):
                             for kc in (True, False):
